@@ -88,7 +88,35 @@ func c22Bodies() []c22BodyT {
 
 var c22ZstdDec *zstd.Decoder
 
+// c22RefDecode decodes b per content coding enc with the reference decoder. Results for small streams are memoised:
+// the schedule explorations judge the same few streams hundreds of thousands of times, and setting up a brotli or
+// zstd decoder costs far more than the execution being judged.
 func c22RefDecode(enc string, b []byte) ([]byte, error) {
+	if len(b) > 1024 || enc == "" || enc == "identity" {
+		return c22RefDecode1(enc, b)
+	}
+	key := enc + "\x00" + string(b)
+	if m, ok := c22DecMemo[key]; ok {
+		return m.out, m.err
+	}
+	out, err := c22RefDecode1(enc, b)
+	if len(c22DecMemo) < 4096 {
+		if c22DecMemo == nil {
+			c22DecMemo = map[string]c22DecRes{}
+		}
+		c22DecMemo[key] = c22DecRes{out, err}
+	}
+	return out, err
+}
+
+type c22DecRes struct {
+	out []byte
+	err error
+}
+
+var c22DecMemo map[string]c22DecRes
+
+func c22RefDecode1(enc string, b []byte) ([]byte, error) {
 	switch enc {
 	case "", "identity":
 		return b, nil
@@ -398,6 +426,7 @@ func c22AEDesc(has bool, ae string) string {
 // c22World runs f as the main thread of a fresh single-caller world at the real queue size.
 func c22World(f func()) *mcrt.Exec {
 	cfg := mcrt.Config{Horizon: 1 << 30}
+	c22SetGC(400)
 	return mcrt.RunOnce(&cfg, nil, func() {
 		mcrt.SetParam("stackless:lit:2048", 2048)
 		f()
@@ -603,12 +632,12 @@ func c22SeqCases(thorough bool) (hs []c22HCase, ps []c22PCase) {
 	const bEmpty, b200, b201, b4k = 0, 3, 4, 5
 	// levels that differ in kind: below range, none, fastest, default, best, above range
 	keyLevel := func(lv int) bool { return lv == -5 || lv == -2 || lv == 0 || lv == 1 || lv == 6 || lv == 9 || lv == 12 }
-	// (1) every Accept-Encoding value (and the absent header) x the three wrappers x {201 B x 4 modes, 4 KiB x 2 modes (quick) / 4 modes}
+	// (1) every Accept-Encoding value (and the absent header) x the three wrappers x {201 B, 4 KiB} x 4 modes (thorough)
 	for wrap := 0; wrap < 3; wrap++ {
 		for _, body := range []int{b201, b4k} {
 			for mode := 0; mode < 4; mode++ {
-				if !thorough && body == b4k && (mode == 1 || mode == 3) {
-					continue
+				if !thorough && !((body == b201 && mode == 0) || (body == b4k && mode == 2 && wrap != 0)) {
+					continue // quick: 201 B buffered through all three wrappers, 4 KiB streamed through the two level wrappers
 				}
 				addH(c22HCase{Wrap: wrap, Level: CompressDefaultCompression, BrLevel: CompressBrotliDefaultCompression, Body: body, Mode: mode})
 				for _, ae := range c22AEs {
@@ -623,6 +652,9 @@ func c22SeqCases(thorough bool) (hs []c22HCase, ps []c22PCase) {
 		for body := range bodies {
 			for _, lv := range c22Levels {
 				if !thorough && body != b200 && body != b4k && !keyLevel(lv) {
+					continue
+				}
+				if !thorough && body == 7 && !(lv == -5 || lv == 0 || lv == 6 || lv == 12) {
 					continue
 				}
 				for _, mode := range []int{0, 2} {
@@ -684,7 +716,7 @@ func c22SeqCases(thorough bool) (hs []c22HCase, ps []c22PCase) {
 					if !thorough && !full && !keyLevel(lv) {
 						continue
 					}
-					if !thorough && body == 7 && ((form != 0 && form != 3) || !(lv == -5 || lv == 0 || lv == 6 || lv == 12)) {
+					if !thorough && body == 7 && ((form != 0 && form != 3) || !(lv == -5 || lv == 0 || lv == 6 || lv == 12) || (ci == 2 && lv == 12 && form != 0)) {
 						continue // 1 MiB: the two writer paths x {below range, none, default, above range}; other forms: default-level API
 					}
 					ps = append(ps, c22PCase{Part: "P", Codec: ci, Level: lv, Body: body, BodyN: bodies[body].Name, Form: form})
